@@ -362,7 +362,7 @@ pub fn worker_main(stage: &dyn DynStage) -> i32 {
 }
 
 fn run_case<S: Stage>(stage: &S, prop: &str, case: &S::Case, worker: &mut Option<Worker>) -> Outcome {
-    if !stage.isolate() {
+    if !stage.isolate() || std::env::var_os("VERIF_NO_ISOLATE").is_some() {
         return run_guarded(stage, case);
     }
     let js = serde_json::to_string(case).unwrap_or_default();
